@@ -5,7 +5,7 @@ P="$1"; TIER="$2"; shift; shift
 cd /repo || exit 2
 if ! git diff --quiet; then echo "/repo has uncommitted changes"; exit 2; fi
 git apply "$P" || { echo "patch does not apply"; exit 2; }
-trap 'git -C /repo checkout -- . ' EXIT
+trap 'git -C /repo apply -R "$P" 2>/dev/null; git -C /repo checkout -- . ; git -C /repo status --short | grep "^??" && echo "WARNING: untracked files left in /repo"' EXIT
 for id in "$@"; do
   out=$(/verif/run.sh "$id" "$TIER" 2>&1); rc=$?
   cls=$(echo "$out" | grep -m1 "class=" | sed 's/^ *//' | cut -c1-200)
